@@ -11,6 +11,7 @@ import math
 import random
 
 import torch
+from .core import sint
 
 from . import tlc, tv
 
@@ -117,10 +118,10 @@ def run(run):
                             else:
                                 spread, positive = 0.0, True
                             rms = math.sqrt(max(pw(yi, False), 1e-300))
-                            e = {"ev": "Power", "raised": False, "power_ppm": int(round(min(pout / target, 2000.0) * 1e6)), "zero_input": zero, "negligible": negl,
-                                 "spread_ppm": int(round(min(spread, 1.0) * 1e6)), "positive": bool(positive),
-                                 "idem_ppm": int(round(min(float((y2i - yi).abs().max()) / rms, 1.0) * 1e6)),
-                                 "rescale_ppm": int(round(min(float((yri - yi).abs().max()) / rms, 1.0) * 1e6)), "shape_ok": shape_ok}
+                            e = {"ev": "Power", "raised": False, "power_ppm": sint(min(pout / target, 2000.0) * 1e6), "zero_input": zero, "negligible": negl,
+                                 "spread_ppm": sint(min(spread, 1.0) * 1e6), "positive": bool(positive),
+                                 "idem_ppm": sint(min(float((y2i - yi).abs().max()) / rms, 1.0) * 1e6),
+                                 "rescale_ppm": sint(min(float((yri - yi).abs().max()) / rms, 1.0) * 1e6), "shape_ok": shape_ok}
                             add(e, cname, dict(cfg, item=b))
                             run.case((cname, target, cplx, shape, fname, sc, b), nontrivial=not zero)
     # ---------------------------------------------------------------- per-antenna power
@@ -149,9 +150,9 @@ def run(run):
                         ratio = (yi / xi).to(torch.complex128).reshape(-1)
                         mean = complex(ratio.mean())
                         rms = math.sqrt(pw(yi, False))
-                        add({"ev": "Power", "raised": False, "power_ppm": int(round(pw(yi, False) / tgt * 1e6)), "zero_input": False, "negligible": False,
-                             "spread_ppm": int(round(float((ratio - mean).abs().max() / abs(mean)) * 1e6)), "positive": abs(mean.imag) <= 1e-5 * abs(mean) and mean.real > 0,
-                             "idem_ppm": int(round(float((y2[b, a] - yi).abs().max()) / rms * 1e6)), "rescale_ppm": int(round(float((yr[b, a] - yi).abs().max()) / rms * 1e6)),
+                        add({"ev": "Power", "raised": False, "power_ppm": sint(pw(yi, False) / tgt * 1e6), "zero_input": False, "negligible": False,
+                             "spread_ppm": sint(float((ratio - mean).abs().max() / abs(mean)) * 1e6), "positive": abs(mean.imag) <= 1e-5 * abs(mean) and mean.real > 0,
+                             "idem_ppm": sint(float((y2[b, a] - yi).abs().max()) / rms * 1e6), "rescale_ppm": sint(float((yr[b, a] - yi).abs().max()) / rms * 1e6),
                              "shape_ok": tuple(y.shape) == tuple(x.shape)}, "PerAntennaPowerConstraint", dict(cfg, item=b, antenna=a))
                         run.case(("perantenna", cplx, shape, uniform, b, a), nontrivial=True)
     # ---------------------------------------------------------------- peak amplitude and PAPR
@@ -169,7 +170,7 @@ def run(run):
                     cfg = {"constraint": "PeakAmplitudeConstraint", "complex": cplx, "ndim": len(shape), "family": fname, "limit": lim}
                     try:
                         y = K.PeakAmplitudeConstraint(lim)(x)
-                        add({"ev": "Peak", "raised": False, "peak_ppm": int(round(min(float(y.abs().max()) / lim, 2000.0) * 1e6)), "shape_ok": tuple(y.shape) == tuple(x.shape)}, "PeakAmplitudeConstraint", cfg)
+                        add({"ev": "Peak", "raised": False, "peak_ppm": sint(min(float(y.abs().max()) / lim, 2000.0) * 1e6), "shape_ok": tuple(y.shape) == tuple(x.shape)}, "PeakAmplitudeConstraint", cfg)
                     except Exception as ex:
                         add({"ev": "Peak", "raised": True, "error": repr(ex)[:100]}, "PeakAmplitudeConstraint", cfg)
                     run.case(("peak", cplx, shape, fname, lim), nontrivial=True)
@@ -182,7 +183,7 @@ def run(run):
                             papr = float(p2.max() / p2.mean())
                             q2 = (xi.abs() ** 2).double()          # the quantifier is over inputs: sparsity is a property of the input item
                             frac = float((q2 >= q2.max() / 100.0).double().mean())
-                            add({"ev": "Papr", "raised": False, "papr_ppm": int(round(min(papr / lim, 2000.0) * 1e6)), "frac20_ppm": int(round(frac * 1e6)), "shape_ok": tuple(y.shape) == tuple(x.shape)},
+                            add({"ev": "Papr", "raised": False, "papr_ppm": sint(min(papr / lim, 2000.0) * 1e6), "frac20_ppm": sint(frac * 1e6), "shape_ok": tuple(y.shape) == tuple(x.shape)},
                                 "PAPRConstraint", dict(cfg, item=b))
                     except Exception as ex:
                         add({"ev": "Papr", "raised": True, "error": repr(ex)[:100]}, "PAPRConstraint", cfg)
@@ -197,8 +198,8 @@ def run(run):
                             for b, (xi, yi) in enumerate(zip(items_of(xs), items_of(y))):
                                 p2 = (yi.abs() ** 2).double()
                                 q2 = (xi.abs() ** 2).double()
-                                add({"ev": "Papr", "raised": False, "papr_ppm": int(round(min(float(p2.max() / p2.mean()) / lim, 2000.0) * 1e6)),
-                                     "frac20_ppm": int(round(float((q2 >= q2.max() / 100.0).double().mean()) * 1e6)), "shape_ok": tuple(y.shape) == tuple(xs.shape)}, "PAPRConstraint", dict(cfg2, item=b))
+                                add({"ev": "Papr", "raised": False, "papr_ppm": sint(min(float(p2.max() / p2.mean()) / lim, 2000.0) * 1e6),
+                                     "frac20_ppm": sint(float((q2 >= q2.max() / 100.0).double().mean()) * 1e6), "shape_ok": tuple(y.shape) == tuple(xs.shape)}, "PAPRConstraint", dict(cfg2, item=b))
                         except Exception as ex:
                             add({"ev": "Papr", "raised": True, "error": repr(ex)[:100]}, "PAPRConstraint", cfg2)
                         run.case(("papr-rowscaled", cplx, shape, fname, lim), nontrivial=True)
@@ -225,17 +226,17 @@ def run(run):
                 ref = p(ref)
             yc = K.utils.apply_constraint_chain(parts, x)
             add({"ev": "Composite", "raised": False, "order": seq_order, "declared": list(range(1, len(parts) + 1)),
-                 "diff_ppm": int(round(min(float((y - ref).abs().max()) / max(float(ref.abs().max()), 1e-30), 1.0) * 1e6)),
-                 "chain_ppm": int(round(min(float((yc - ref).abs().max()) / max(float(ref.abs().max()), 1e-30), 1.0) * 1e6))}, "CompositeConstraint", cfg)
+                 "diff_ppm": sint(min(float((y - ref).abs().max()) / max(float(ref.abs().max()), 1e-30), 1.0) * 1e6),
+                 "chain_ppm": sint(min(float((yc - ref).abs().max()) / max(float(ref.abs().max()), 1e-30), 1.0) * 1e6)}, "CompositeConstraint", cfg)
             # the observation point named by the property: measure_signal_properties(constraint(x))
             try:
                 mp = K.utils.measure_signal_properties(y)
                 p2 = (y.abs().double() ** 2)
                 rm, rp = float(p2.mean()), float(p2.max())
-                rat = lambda a, b: int(round(min(max(a / b, 0.0), 2000.0) * 1e6)) if b > 0 else (1000000 if a == b else 0)
+                rat = lambda a, b: sint(min(max(a / b, 0.0), 2000.0) * 1e6) if b > 0 else (1000000 if a == b else 0)
                 add({"ev": "Measure", "raised": False, "mean_ppm": rat(mp["mean_power"], rm), "peak_ppm": rat(mp["peak_power"], rp), "amp_ppm": rat(mp["peak_amplitude"], rp ** 0.5),
-                     "papr_ppm": rat(mp["papr"], rp / rm) if rm > 0 else 1000000, "db_centi": int(round(mp["papr_db"] * 100)) if rm > 0 else 0,
-                     "db_centi_ref": int(round(1000 * math.log10(rp / rm))) if rm > 0 else 0}, "measure_signal_properties", cfg)
+                     "papr_ppm": rat(mp["papr"], rp / rm) if rm > 0 else 1000000, "db_centi": sint(mp["papr_db"] * 100) if rm > 0 else 0,
+                     "db_centi_ref": sint(1000 * math.log10(rp / rm)) if rm > 0 else 0}, "measure_signal_properties", cfg)
             except Exception as ex:
                 add({"ev": "Measure", "raised": True, "error": repr(ex)[:100]}, "measure_signal_properties", cfg)
         except Exception as ex:
@@ -254,8 +255,8 @@ def run(run):
                     for b, (xi, yi) in enumerate(zip(items_of(x), items_of(y))):
                         p2 = (yi.abs() ** 2).double()
                         q2 = (xi.abs() ** 2).double()
-                        add({"ev": "Factory", "raised": False, "power_ppm": int(round(float(p2.sum()) * 1e6)), "peak_ppm": -1 if peak is None else int(round(float(yi.abs().max()) / peak * 1e6)),
-                             "papr_ppm": int(round(float(p2.max() / p2.mean()) / papr * 1e6)), "frac20_ppm": int(round(float((q2 >= q2.max() / 100).double().mean()) * 1e6)),
+                        add({"ev": "Factory", "raised": False, "power_ppm": sint(float(p2.sum()) * 1e6), "peak_ppm": -1 if peak is None else sint(float(yi.abs().max()) / peak * 1e6),
+                             "papr_ppm": sint(float(p2.max() / p2.mean()) / papr * 1e6), "frac20_ppm": sint(float((q2 >= q2.max() / 100).double().mean()) * 1e6),
                              "ant_min_ppm": -1, "ant_max_ppm": -1}, "create_ofdm_constraints", dict(cfg, item=b))
                 except Exception as ex:
                     add({"ev": "Factory", "raised": True, "error": repr(ex)[:100]}, "create_ofdm_constraints", cfg)
@@ -267,8 +268,8 @@ def run(run):
                 y = create_mimo_constraints(num_antennas=4, uniform_power=0.25, max_papr=papr)(x)
                 ap = (y.abs() ** 2).double().mean(dim=2)
                 p2 = (y.abs() ** 2).double()
-                add({"ev": "Factory", "raised": False, "power_ppm": -1, "peak_ppm": -1, "papr_ppm": -1 if papr is None else int(round(float((p2.reshape(2, -1).max(dim=1)[0] / p2.reshape(2, -1).mean(dim=1)).max()) / papr * 1e6)),
-                     "frac20_ppm": 1000000, "ant_min_ppm": int(round(float(ap.min()) / 0.25 * 1e6)), "ant_max_ppm": int(round(float(ap.max()) / 0.25 * 1e6))}, "create_mimo_constraints", cfg)
+                add({"ev": "Factory", "raised": False, "power_ppm": -1, "peak_ppm": -1, "papr_ppm": -1 if papr is None else sint(float((p2.reshape(2, -1).max(dim=1)[0] / p2.reshape(2, -1).mean(dim=1)).max()) / papr * 1e6),
+                     "frac20_ppm": 1000000, "ant_min_ppm": sint(float(ap.min()) / 0.25 * 1e6), "ant_max_ppm": sint(float(ap.max()) / 0.25 * 1e6)}, "create_mimo_constraints", cfg)
             except Exception as ex:
                 add({"ev": "Factory", "raised": True, "error": repr(ex)[:100]}, "create_mimo_constraints", cfg)
             run.case(("mimo", cplx, papr), nontrivial=True)
